@@ -130,6 +130,18 @@ class K:
                 cls.diff_results.append(copy.deepcopy(list(res.patch)))
                 return res
 
+        # observation point: the outcomes dict as serve_admission_request gets it from execute_handlers_once
+        cls.outcome_calls: list[list[tuple[str, Any]]] = []
+        if not hasattr(admission, 'execution') or not hasattr(admission.execution, 'execute_handlers_once'):
+            raise RuntimeError('observation point missing: admission.execution.execute_handlers_once')
+        real_exec = admission.execution.execute_handlers_once
+
+        async def recording_exec(*a: Any, **kw: Any) -> Any:
+            outs = await real_exec(*a, **kw)
+            cls.outcome_calls.append([(str(k), v.exception) for k, v in outs.items()])
+            return outs
+
+        admission.execution.execute_handlers_once = recording_exec
         if not hasattr(patches, 'jsonpatch'):
             raise RuntimeError('observation point missing: kopf._cogs.structs.patches.jsonpatch')
         shim = types.SimpleNamespace(**{k: getattr(jsonpatch, k) for k in dir(jsonpatch) if not k.startswith('__')})
@@ -238,6 +250,48 @@ def patch_write(patch: Any, op: list) -> None:
         pass   # e.g. a view over a key that an earlier op set to a scalar: the write is dropped by the script
 
 
+def write_path(op: list) -> list[str]:
+    """The path a scripted write addresses in the Patch (item: top-level key; views: below their root)."""
+    return {'item': lambda: [op[1]], 'view': lambda: [op[1], op[2]], 'label': lambda: ['metadata', 'labels', op[1]],
+            'ann': lambda: ['metadata', 'annotations', op[1]], 'deep': lambda: list(op[1])}[op[0]]()
+
+
+def all_paths(*docs: Any, cap: int = 24) -> list[list[str]]:
+    """Prefix-closed paths through the mappings of the given documents (deterministic order, capped)."""
+    seen: list[list[str]] = []
+
+    def walk(d: Any, path: list[str]) -> None:
+        if path and path not in seen:
+            seen.append(path)
+        if isinstance(d, dict):
+            for k, v in d.items():
+                walk(v, path + [k])
+
+    for d in docs:
+        walk(d, [])
+    return seen[:cap]
+
+
+def classify_path(patch: Any, q: list[str]) -> str:
+    """The harness's reading of what a merge-style content says about a path."""
+    cur = patch
+    for i, k in enumerate(q):
+        if not isinstance(cur, dict):
+            return 'below a deleted key' if cur is None else 'below a set value'
+        if k not in cur:
+            return 'untouched'
+        cur = cur[k]
+    return 'deleted' if cur is None else ('mapping node' if isinstance(cur, dict) else 'set')
+
+
+def c_clauses(ctx: fw.Ctx, patch: Any, body: Any, result: Any) -> str:
+    paths = all_paths(body, patch, result)
+    for q in paths:
+        ctx.count('clause_of_path', classify_path(patch, q))
+    return (f'forallb (fun q => ojeqb (leaf_at {canon.cj(result)} q) (requested {canon.cj(patch)} {canon.cj(body)} q)) '
+            f'{cq.clist(cq.cpath(q) for q in paths)}')
+
+
 def mkrequest(sc: dict) -> dict:
     req: dict[str, Any] = {
         'uid': sc.get('uid', 'uid-1'),
@@ -263,7 +317,7 @@ def run_scenario(sc: dict) -> dict:
 
     def make_function(fi: int, script: dict) -> Any:
         async def fn(**kw: Any) -> None:
-            entry: dict[str, Any] = {'h': kw.get('param'), 'fn': fi, 'warnings': [], 'exc': None}
+            entry: dict[str, Any] = {'h': kw.get('param'), 'fn': fi, 'warnings': [], 'exc': None, 'writes': []}
             log.append(entry)
             holder['patch'] = kw['patch']
             for w in script.get('warnings', []):
@@ -271,6 +325,7 @@ def run_scenario(sc: dict) -> dict:
                 entry['warnings'].append(w)
             for op in script.get('patch', []):
                 patch_write(kw['patch'], op)
+                entry['writes'].append([op[0], write_path(op), op[-1]])
             for op in script.get('fns', []):
                 kw['patch'].fns.append(make_fn(op))
                 holder.setdefault('fns', []).append(op)
@@ -303,6 +358,7 @@ def run_scenario(sc: dict) -> dict:
     insights.webhook_resources.add(K.resource)
     K.diff_calls.clear()
     K.diff_results.clear()
+    K.outcome_calls.clear()
     reason = {None: None, 'validating': K.causes.WebhookType.VALIDATING, 'mutating': K.causes.WebhookType.MUTATING}[sc.get('reason')]
     coro = K.admission.serve_admission_request(
         mkrequest(sc), webhook=sc.get('webhook'), reason=reason,
@@ -322,6 +378,8 @@ def run_scenario(sc: dict) -> dict:
     obs['fns'] = list(holder.get('fns', []))
     obs['diff_calls'] = list(K.diff_calls)
     obs['computed'] = list(K.diff_results[-1]) if K.diff_results else []   # what as_json_patch handed to build_response
+    obs['outcomes'] = list(K.outcome_calls[-1]) if K.outcome_calls else None
+    obs['writes'] = [w for e in log for w in e['writes']]
     receive(obs)
     return obs
 
@@ -1047,6 +1105,36 @@ def scenario_cases(ctx: fw.Ctx, sc: dict, D: dict[str, list[fw.Case]], tag: str 
             D['law'].append(c_law(obs['ops'] if obs['ops'] is not None else obs['computed'], obj))
         except cq.Unencodable:
             ctx.count('skipped', 'unencodable')
+    # ---- D: the outcomes dict (collect_outcomes and its specification effective_outcomes) ----
+    if obs['outcomes'] is None:
+        ctx.correspondence_break('D:outcomes', {'detail': 'execute_handlers_once was not called', 'case': data})
+    else:
+        outs_t = cq.clist(cq.cpair(cq.cstr(i), 'None' if e is None else f'(Some {c_herror(herror_of(e))})') for i, e in obs['outcomes'])
+        sel_t = f'(select_webhooks {cause} {hs_term})'
+        D['outcomes'].append(fw.Case(f'outcomes_eqb (collect_outcomes {c_run(sc)} {sel_t}) {outs_t} && '
+                                     f'outcomes_eqb (effective_outcomes {c_run(sc)} {sel_t}) {outs_t}',
+                                     {**data, 'outcomes': [(i, repr(e)) for i, e in obs['outcomes']]},
+                                     diag=f'collect_outcomes {c_run(sc)} {sel_t}'))
+        ids = [i for i, _ in obs['outcomes']]
+        ran_ids = [sc['handlers'][hi]['id'] for hi in ran]
+        ctx.count('outcome_ids', 'a shared id among the invoked' if len(set(ran_ids)) < len(ran_ids) else 'distinct ids')
+    # ---- D: how the writes of the handlers fill the Patch (content_of) ----
+    try:
+        ws_t = cq.clist(cq.cpair(cq.cpath(w[1]), canon.cj(w[2])) for w in obs['writes'])
+        D['content'].append(fw.Case(f'jeqb (content_of {ws_t}) {patch_t}', {**data, 'writes': obs['writes'], 'content': pdict},
+                                    diag=f'content_of {ws_t}'))
+        for w in obs['writes']:
+            ctx.count('patch_write', w[0])
+    except cq.Unencodable:
+        ctx.count('skipped', 'unencodable')
+    # ---- D: every path of the object after the received patch, against `requested` (no fns in play) ----
+    if obs['raised'] is None and obs['wire'] != 'undecodable' and not fnops and pdict:
+        ok_own, after = own_apply(obj, obs['ops'])
+        if ok_own:
+            try:
+                D['clauses'].append(fw.Case(c_clauses(ctx, pdict, obj, after), {**data, 'patch': pdict, 'after': after}))
+            except cq.Unencodable:
+                ctx.count('skipped', 'unencodable')
     # ---- D: the whole response ----
     serve = f'(serve (fun _ _ => {ops_t}) {cq.cstr(sc.get("uid", "uid-1"))} {cause} {hs_term} {c_run(sc)} {patch_t} {fns_t} {body_t})'
     if obs['raised'] is not None:
@@ -1116,14 +1204,15 @@ def direct_case(ctx: fw.Ctx, D: dict[str, list[fw.Case]], body: dict, patch: dic
         b2 = copy.deepcopy(body)
         kind, _ = canon.run_res(lambda: p._apply_patch(b2, (), dict(p)))
         exp = canon.cres(kind, canon.cj(b2) if kind == 'ok' else None)
-        D['apply'].append(fw.Case(f'res_eqb jeqb (apply_dsl {patch_t} {body_t}) {exp}', {**data, 'outcome': kind, 'result': b2 if kind == 'ok' else None},
+        # the real result against the model, and (spec side) against the RFC 7386 merge up to empty mappings
+        spec = f' && jeqb (prune {canon.cj(b2)}) (prune (merge {body_t} {patch_t}))' if kind == 'ok' else ''
+        D['apply'].append(fw.Case(f'res_eqb jeqb (apply_dsl {patch_t} {body_t}) {exp}{spec}', {**data, 'outcome': kind, 'result': b2 if kind == 'ok' else None},
                                   diag=f'apply_dsl {patch_t} {body_t}'))
         ctx.count('apply_dsl', kind)
         dv = dives(patch, body, need_instruction=False)
         ctx.count('mapping_over_non_mapping', 'none' if not dv else f'depth {min(3, min(len(x) for x in dv))}')
-        # the model itself: Ok and equal to RFC 7386 up to empty mappings, evaluated in Coq on every case
-        D['merge'].append(fw.Case(f'match apply_dsl {patch_t} {body_t} with Ok b => jeqb (prune b) (prune (merge {body_t} {patch_t})) | _ => false end',
-                                  {**data, 'note': 'model: prune(apply_dsl) = prune(merge)'}, diag=f'apply_dsl {patch_t} {body_t}'))
+        if kind == 'ok':
+            D['clauses'].append(fw.Case(c_clauses(ctx, patch, body, b2), {**data, 'result': b2}))
         # as_json_patch
         p = K.patches.Patch(copy.deepcopy(patch), body=K.bodies.Body(copy.deepcopy(body)), fns=[make_fn(o) for o in fnops])
         K.diff_calls.clear()
@@ -1265,7 +1354,7 @@ def run(ctx: fw.Ctx) -> int:
         return ctx.finish(RULE)
     K.load()
     G = Gen18(ctx)
-    D: dict[str, list[fw.Case]] = {k: [] for k in ('select', 'response', 'wire', 'dsl', 'law', 'apply', 'merge', 'asjp', 'build', 'seltable', 'pointer')}
+    D: dict[str, list[fw.Case]] = {k: [] for k in ('select', 'outcomes', 'content', 'response', 'wire', 'dsl', 'law', 'apply', 'clauses', 'asjp', 'build', 'seltable', 'pointer')}
 
     for name, sc in corpus_scenarios():
         ctx.count('corpus', name)
@@ -1280,7 +1369,7 @@ def run(ctx: fw.Ctx) -> int:
         scenario_cases(ctx, {'op': 'CREATE', 'sub': None, 'webhook': None, 'reason': None, 'old': None, 'dryrun': False, 'uid': 'uid-1',
                              'object': body, 'functions': [{'warnings': [], 'patch': [['item', k, v] for k, v in patch.items()], 'fns': [], 'raise': None}],
                              'handlers': [{'id': 'fn0', 'fn': 0, 'kind': 'mutate', 'operations': None, 'subresource': None, 'when': None}]}, D)
-    for i in range(ctx.scale(300, 4000)):
+    for i in range(ctx.scale(260, 4000)):
         scenario_cases(ctx, G.scenario(), D)
     direct_patch_cases(ctx, G, ctx.scale(350, 6000), D)
     response_cases(ctx, G, ctx.scale(200, 3000), D, exhaustive_k=4)
